@@ -200,9 +200,11 @@ def first_recovery(t):
 
 def bad_streams(rng, n):
     """Streams of 2-4 pairs in which exactly one message carries a size fault."""
+    n_streams = 0
     for s, msgs in cases.stream_cases(rng, n, max_pairs=3):
         if len(msgs) < 3:
             continue
+        n_streams += 1
         k = rng.randrange(len(msgs))  # any message, the last one included (what follows a fault there is the end of the input)
         m = msgs[k]
         mref = m.ref()
@@ -219,14 +221,6 @@ def bad_streams(rng, n):
                 f = rng.choice(pairs)
                 f.fault = dict(kind="size", field=f.fault["outer"] + "+" + f.fault["inner"], fkind="nested-pair", change=f.fault["change"])
                 f.sig = ("size", m.t, m.cc, "nested-pair", f.fault["field"], f.fault["change"])
-        # every few streams: a command that is abandoned before / at its commandCode (its response has no code to go by)
-        cmds = [i for i, x in enumerate(msgs[:-1]) if x.t == "Command"]
-        if cmds and rng.random() < 0.3:
-            k = rng.choice(cmds)
-            m = msgs[k]
-            v = rng.choice((0, 2, 6, 9))
-            f = cases.Case("Command", m.d[:2] + v.to_bytes(4, "big") + m.d[6:], origin="bad-stream",
-                           fault=dict(kind="size", field=".commandSize", fkind="message", change=f"={v}", old=len(m.d), new=v), sig=("size", "Command", None, "message", ".commandSize", f"={v}"))
         if rng.random() < 0.3:
             # an out-of-range value instead: in the last constrained field of the message
             vf = list(cases.value_faults(m, mref, rng, limit=None))
@@ -234,6 +228,16 @@ def bad_streams(rng, n):
                 f = vf[-1 - rng.randrange(min(3, len(vf)))]
                 f.fault = dict(kind="size", field=f.fault["field"], fkind="value", change=f.fault["change"])
                 f.sig = ("size", m.t, m.cc, "value", f.fault["field"], f.fault["change"])
+        # every few streams: a command that is abandoned before / at its commandCode (its response has no code to go by)
+        cmds = [i for i, x in enumerate(msgs[:-1]) if x.t == "Command"]
+        # ... preferably one that is answered by a successful response (only that one needs the code's layout)
+        answered = [i for i in cmds if msgs[i + 1].t == "Response" and msgs[i + 1].d[6:10] == b"\0\0\0\0" and len(msgs[i + 1].d) > 10]
+        if cmds and n_streams % 3 == 1:
+            k = rng.choice(answered or cmds)
+            m = msgs[k]
+            v = (0, 2, 6, 9)[(n_streams // 3) % 4]
+            f = cases.Case("Command", m.d[:2] + v.to_bytes(4, "big") + m.d[6:], origin="bad-stream",
+                           fault=dict(kind="size", field=".commandSize", fkind="message", change=f"={v}", old=len(m.d), new=v), sig=("size", "Command", None, "message", ".commandSize", f"={v}"))
         data = b"".join(x.d for x in msgs[:k]) + f.d + b"".join(x.d for x in msgs[k + 1 :])
         yield cases.Case("CommandResponseStream", data, origin="bad-stream",
                          fault=dict(kind="stream-size", message=k, of=len(msgs), **{kk: vv for kk, vv in f.fault.items() if kk != "kind"}),
